@@ -560,6 +560,14 @@ def gen_C08(rng, tier):
         ops.append(['terminate_job', u, SIGUSR1])
         ops.append(['sleep', rng.choice([0.1, 1.0])])
         how = 'terminate'
+    elif how == 'terminate_job' and pc['threads'] and rng.random() < 0.4:
+        # terminate_job() on a worker that is running a part of a map / imap job
+        u = add_map(rng, c, ops, kind=rng.choice(['map', 'imap', 'imap_unordered']), n=rng.choice([2, 3, 5]), chunks=1,
+                    mkitem=lambda: prog_ok(rng, maxticks=2, sleep=rng.choice([0.5, 2.0])))
+        ops.append(['sleep', rng.choice([0.1, 0.3])])
+        ops.append(['terminate_job', u])
+        ops.append(['sleep', rng.choice([0.1, 1.0])])
+        how = 'terminate'
     elif how == 'terminate_job' and uids:
         u = rng.choice(uids)
         ops.append(['wait_accepted', u, 5.0])
